@@ -108,9 +108,10 @@ def n2(prog):
     if po is None or tm is None:
         raise Broken("anchors parse_op / parse_op_tmplet vanished")
     from r_tables import strval
-    tmpl_names = [strval(c["a"][0]) for c in calls(po["body"]) if c.get("fn") == "parse_op_tmplet"]
-    words = [strval(c["a"][0]) for c in calls(po["body"]) if c.get("fn") == "parse_word" and strval(c["a"][0]) is not None]
-    opread = [c for c in calls(po["body"]) if c.get("fn") == "parse_word" and strval(c["a"][0]) is None]
+    sv = lambda x: strval(x, po["body"])
+    tmpl_names = [sv(c["a"][0]) for c in calls(po["body"]) if c.get("fn") == "parse_op_tmplet"]
+    words = [sv(c["a"][0]) for c in calls(po["body"]) if c.get("fn") == "parse_word" and sv(c["a"][0]) is not None]
+    opread = [c for c in calls(po["body"]) if c.get("fn") == "parse_word" and sv(c["a"][0]) is None]
     wrapped = any(c.get("f") == "tree::create_assert" for c in calls(po["body"])) and \
         any(c.get("f", "").startswith("tree::create_unary<") and "PRED_SUBX_ANY" in c.get("f", "") for c in calls(po["body"])) and \
         any(c.get("f") == "tree::create_scope" for c in calls(po["body"]))
